@@ -4,5 +4,9 @@ package main
 
 import . "ottoh/lib"
 
-// without /repo/verif_hooks_c17.go there is no access to the Go heap: black box only
+// without /repo/verif_hooks_c17.go there is no access to the Go heap: black box and script dumps only
+const hookEnabled = false
+
 func hookCases(env *Env) {}
+
+func (g *gen) hookCase(H []string, hist []int64, serial int) {}
